@@ -1252,9 +1252,13 @@ where
         let end = s.len();
 
         while buffer < end {
+            #[cfg(comrak_verif)]
+            crate::verif::step();
             let mut process = false;
             let mut eol = buffer;
             while eol < end {
+                #[cfg(comrak_verif)]
+                crate::verif::step();
                 if strings::is_line_end_char(s[eol]) {
                     process = true;
                     break;
@@ -1318,6 +1322,8 @@ where
         let mut count = 1;
         let mut nextc;
         loop {
+            #[cfg(comrak_verif)]
+            crate::verif::step();
             i += 1;
             if i >= line.len() {
                 return (i, false);
@@ -1356,6 +1362,8 @@ where
             self.first_nonspace_column = self.column;
 
             loop {
+                #[cfg(comrak_verif)]
+                crate::verif::step();
                 if self.first_nonspace >= line.len() {
                     break;
                 }
@@ -1467,6 +1475,8 @@ where
         let mut should_continue = true;
 
         while nodes::last_child_is_open(container) {
+            #[cfg(comrak_verif)]
+            crate::verif::step();
             container = container.last_child().unwrap();
             let ast = &mut *container.data.borrow_mut();
 
@@ -1664,6 +1674,8 @@ where
             + self.first_nonspace;
         let mut level = 0;
         while line[hashpos] == b'#' {
+            #[cfg(comrak_verif)]
+            crate::verif::step();
             level += 1;
             hashpos += 1;
         }
@@ -1963,6 +1975,8 @@ where
             (self.partially_consumed_tab, self.offset, self.column);
 
         while self.column - save_column <= 5 && strings::is_space_or_tab(line[self.offset]) {
+            #[cfg(comrak_verif)]
+            crate::verif::step();
             self.advance_offset(line, 1, true);
         }
 
@@ -2049,6 +2063,8 @@ where
         let mut fence_length = 0;
 
         while line[title_startpos] != b']' {
+            #[cfg(comrak_verif)]
+            crate::verif::step();
             if line[title_startpos] == b'>' {
                 fence_length += 1
             }
@@ -2098,6 +2114,8 @@ where
             container,
             NodeValue::CodeBlock(..) | NodeValue::HtmlBlock(..)
         ) {
+            #[cfg(comrak_verif)]
+            crate::verif::step();
             depth += 1;
             self.find_first_nonspace(line);
             let indented = self.indent >= CODE_INDENT;
@@ -2150,6 +2168,8 @@ where
 
     fn advance_offset(&mut self, line: &[u8], mut count: usize, columns: bool) {
         while count > 0 {
+            #[cfg(comrak_verif)]
+            crate::verif::step();
             match line[self.offset] {
                 9 => {
                     let chars_to_tab = TAB_STOP - (self.column % TAB_STOP);
@@ -2280,6 +2300,8 @@ where
 
         let mut i = fence_offset;
         while i > 0 && strings::is_space_or_tab(line[self.offset]) {
+            #[cfg(comrak_verif)]
+            crate::verif::step();
             self.advance_offset(line, 1, true);
             i -= 1;
         }
@@ -2451,6 +2473,8 @@ where
 
         let mut i = fence_offset;
         while i > 0 && strings::is_space_or_tab(line[self.offset]) {
+            #[cfg(comrak_verif)]
+            crate::verif::step();
             self.advance_offset(line, 1, true);
             i -= 1;
         }
@@ -2464,6 +2488,8 @@ where
         start_column: usize,
     ) -> &'a AstNode<'a> {
         while !nodes::can_contain_type(parent, &value) {
+            #[cfg(comrak_verif)]
+            crate::verif::step();
             parent = self.finalize(parent).unwrap();
         }
 
@@ -2504,6 +2530,8 @@ where
 
         let mut tmp = container;
         while let Some(parent) = tmp.parent() {
+            #[cfg(comrak_verif)]
+            crate::verif::step();
             parent.data.borrow_mut().last_line_blank = false;
             tmp = parent;
         }
@@ -2521,6 +2549,8 @@ where
             self.add_line(self.current, line);
         } else {
             while !self.current.same_node(last_matched_container) {
+                #[cfg(comrak_verif)]
+                crate::verif::step();
                 self.current = self.finalize(self.current).unwrap();
             }
 
@@ -2604,6 +2634,8 @@ where
             self.offset += 1;
             let chars_to_tab = TAB_STOP - (self.column % TAB_STOP);
             for _ in 0..chars_to_tab {
+                #[cfg(comrak_verif)]
+                crate::verif::step();
                 ast.content.push(' ');
             }
         }
@@ -2630,6 +2662,8 @@ where
 
     fn finalize_document(&mut self) {
         while !self.current.same_node(self.root) {
+            #[cfg(comrak_verif)]
+            crate::verif::step();
             self.current = self.finalize(self.current).unwrap();
         }
 
@@ -2660,6 +2694,8 @@ where
                 && seek[0] == b'['
                 && unwrap_into(self.parse_reference_inline(seek), &mut pos)
             {
+                #[cfg(comrak_verif)]
+                crate::verif::step();
                 seek = &seek[pos..];
                 seeked += pos;
             }
@@ -2712,6 +2748,8 @@ where
                 } else {
                     let mut pos = 0;
                     while pos < content.len() {
+                        #[cfg(comrak_verif)]
+                        crate::verif::step();
                         if strings::is_line_end_char(content.as_bytes()[pos]) {
                             break;
                         }
@@ -2752,6 +2790,8 @@ where
                 let mut ch = node.first_child();
 
                 while let Some(item) = ch {
+                    #[cfg(comrak_verif)]
+                    crate::verif::step();
                     if item.data.borrow().last_line_blank && item.next_sibling().is_some() {
                         nl.tight = false;
                         break;
@@ -2759,6 +2799,8 @@ where
 
                     let mut subch = item.first_child();
                     while let Some(subitem) = subch {
+                        #[cfg(comrak_verif)]
+                        crate::verif::step();
                         if (item.next_sibling().is_some() || subitem.next_sibling().is_some())
                             && nodes::ends_with_blank_line(subitem)
                         {
@@ -2787,6 +2829,8 @@ where
 
     fn process_inlines_node(&mut self, node: &'a AstNode<'a>) {
         for node in node.descendants() {
+            #[cfg(comrak_verif)]
+            crate::verif::step();
             if node.data.borrow().value.contains_inlines() {
                 self.parse_inlines(node);
             }
@@ -2831,6 +2875,8 @@ where
             let mut v = map.into_values().collect::<Vec<_>>();
             v.sort_unstable_by(|a, b| a.ix.cmp(&b.ix));
             for f in v {
+                #[cfg(comrak_verif)]
+                crate::verif::step();
                 if f.ix.is_some() {
                     match f.node.data.borrow_mut().value {
                         NodeValue::FootnoteDefinition(ref mut nfd) => {
@@ -2853,6 +2899,8 @@ where
         // deeply nested documents cannot overflow the call stack.
         let mut stack = vec![node];
         while let Some(node) = stack.pop() {
+            #[cfg(comrak_verif)]
+            crate::verif::step();
             match node.data.borrow().value {
                 NodeValue::FootnoteDefinition(ref nfd) => {
                     map.insert(
@@ -2881,6 +2929,8 @@ where
         // deeply nested documents cannot overflow the call stack.
         let mut stack = vec![node];
         while let Some(node) = stack.pop() {
+            #[cfg(comrak_verif)]
+            crate::verif::step();
             let mut ast = node.data.borrow_mut();
             let mut replace = None;
             match ast.value {
@@ -2921,6 +2971,8 @@ where
         // are collected before any of them is detached.
         let mut stack = vec![node];
         while let Some(node) = stack.pop() {
+            #[cfg(comrak_verif)]
+            crate::verif::step();
             match node.data.borrow().value {
                 NodeValue::FootnoteDefinition(_) => {
                     node.detach();
@@ -2937,9 +2989,13 @@ where
         let mut children = vec![];
 
         while let Some(node) = stack.pop() {
+            #[cfg(comrak_verif)]
+            crate::verif::step();
             let mut nch = node.first_child();
 
             while let Some(n) = nch {
+                #[cfg(comrak_verif)]
+                crate::verif::step();
                 let mut this_bracket = false;
                 let mut emptied = false;
                 let n_ast = &mut n.data.borrow_mut();
@@ -2953,6 +3009,8 @@ where
                         let mut spxv = VecDeque::new();
                         spxv.push_back((sourcepos, root.len()));
                         while let Some(ns) = n.next_sibling() {
+                            #[cfg(comrak_verif)]
+                            crate::verif::step();
                             match ns.data.borrow().value {
                                 NodeValue::Text(ref adj) => {
                                     root.push_str(adj);
@@ -3180,6 +3238,8 @@ fn parse_list_marker(
         if interrupts_paragraph {
             let mut i = pos;
             while strings::is_space_or_tab(line[i]) {
+                #[cfg(comrak_verif)]
+                crate::verif::step();
                 i += 1;
             }
             if line[i] == b'\n' {
@@ -3205,6 +3265,8 @@ fn parse_list_marker(
         let mut digits = 0;
 
         loop {
+            #[cfg(comrak_verif)]
+            crate::verif::step();
             start = (10 * start) + (line[pos] - b'0') as usize;
             pos += 1;
             digits += 1;
@@ -3232,6 +3294,8 @@ fn parse_list_marker(
         if interrupts_paragraph {
             let mut i = pos;
             while strings::is_space_or_tab(line[i]) {
+                #[cfg(comrak_verif)]
+                crate::verif::step();
                 i += 1;
             }
             if strings::is_line_end_char(line[i]) {
@@ -3300,6 +3364,8 @@ fn lists_match(list_data: &NodeList, item_data: &NodeList) -> bool {
 
 fn reopen_ast_nodes<'a>(mut ast: &'a AstNode<'a>) {
     loop {
+        #[cfg(comrak_verif)]
+        crate::verif::step();
         ast.data.borrow_mut().open = true;
         ast = match ast.parent() {
             Some(p) => p,
@@ -3352,6 +3418,8 @@ impl Spx {
     //     end column of the original node.
     pub(crate) fn consume(&mut self, mut rem: usize) -> usize {
         while let Some((sp, x)) = self.0.pop_front() {
+            #[cfg(comrak_verif)]
+            crate::verif::step();
             match rem.cmp(&x) {
                 Ordering::Greater => rem -= x,
                 Ordering::Equal => return sp.end.column,
